@@ -119,6 +119,30 @@ pub fn each(tier: Tier, f: &mut dyn FnMut(Case) -> bool) -> bool {
             }
         }
     }
+    // files that are not text: bytes that are not UTF-8 at the start, in the middle, inside a literal, inside a
+    // comment, at the very end (the case carries the bytes in hexadecimal)
+    for (k, bytes) in [
+        &b"\xff\xfe1\n"[..],
+        b"1 + 1\n\xff",
+        b"\x80",
+        b"\"\xc3\"",
+        b"// \xe2\x82\n1",
+        b"\xed\xa0\x80",
+        b"\xc0\xaf",
+        b"\xf8\x88\x80\x80\x80",
+        b"stel a = \"\xe9\"; a",
+        b"1 + 1 // \xff",
+        b"\xef\xbb\xbf\xff",
+        b"\x00\xff\x00",
+    ]
+    .iter()
+    .enumerate()
+    {
+        let hex: String = bytes.iter().map(|b| format!("{b:02x}")).collect();
+        if !f(Case { family: "file-bytes", n: k, text: hex, expect: Some(String::new()) }) {
+            return false;
+        }
+    }
     // counts of things (the machine's size limits are reached on the way: both builds must refuse alike)
     let counted: Vec<(&'static str, Gen)> = vec![
         ("statements;", Box::new(|n| (format!("{}2", "1;".repeat(n)), None))),
@@ -267,7 +291,12 @@ fn scratch_file(sh: &Shard) -> String {
 
 pub fn check_case(sh: &mut Shard, class: &str, c: &Case, dev: &str, rel: &str) {
     let file = scratch_file(sh);
-    match std::fs::File::create(&file).and_then(|mut fh| fh.write_all(c.text.as_bytes())) {
+    let content: Vec<u8> = if c.family == "file-bytes" {
+        (0..c.text.len() / 2).map(|i| u8::from_str_radix(&c.text[2 * i..2 * i + 2], 16).unwrap_or(0)).collect()
+    } else {
+        c.text.as_bytes().to_vec()
+    };
+    match std::fs::File::create(&file).and_then(|mut fh| fh.write_all(&content)) {
         Ok(()) => {}
         Err(e) => {
             sh.machinery(format!("cannot write {file}: {e}"));
